@@ -75,6 +75,27 @@ def one_line_layout(case, rng):
     return c2
 
 
+def unclosed(case, rng):
+    """ONE procedure (not the last declaration) loses its closing brace - the character is blanked, so every offset and line
+    stays what it is.  Error recovery resynchronises at the next declaration: the damaged procedure ends with its last
+    remaining token, all other ranges are unchanged.  Returns (text, expected ranges) or None"""
+    procs = [k for k, inf in enumerate(case.infos) if inf["kind"] == "proc" and k + 1 < len(case.infos)]
+    if not procs:
+        return None
+    k = rng.choice(procs)
+    rb = case.infos[k]["rbrace"]
+    s, e = case.spans[rb]
+    text = case.text[:s] + " " * (e - s) + case.text[e:]
+    want = []
+    for j, inf in enumerate(case.infos):
+        if inf["kind"] != "proc":
+            continue
+        a = case.geo.pos[case.spans[inf["start"]][0]][0]
+        b = case.geo.pos[case.spans[inf["rbrace"] - 1 if j == k else inf["rbrace"]][1]][0]
+        want.append((a, b))
+    return text, want
+
+
 def fold_ranges(res):
     """[(start, end)] from the JSON answer, or None"""
     try:
@@ -214,6 +235,16 @@ def run(ctx):
               "type t = int;", "proc p() {\r\n}\r\nproc q() {\r}\r", "proc é() {\n}", "proc p() { // 😀\n}\n// tail"]:
         mtexts.append(t)
         mkinds["hand-written"] += 1
+    # a procedure without its closing brace in front of another (documented) declaration: exact expectation
+    unclosed_want = {}
+    for c in cases[:(2000 if ctx.thorough() else 500)]:
+        if getattr(c, "mixed", False) or c.family != "well-typed":
+            continue
+        u = unclosed(c, rng)
+        if u is not None:
+            unclosed_want[len(mtexts)] = u[1]
+            mtexts.append(u[0])
+            mkinds["unclosed-procedure"] += 1
     mres = observe(exe, mtexts, "c17m")
     lap("server_malformed")
     mmod = model(judge, mtexts) if judge else None
@@ -227,6 +258,9 @@ def run(ctx):
             rs = fold_ranges(got)
             hist["malformed-ranges:%d" % min(len(rs), 4)] += 1
             w = "unexpected shape" if rs is None else H.fold_wellformed(rs, H.Geometry(t).last_line())
+            if not w and i in unclosed_want and rs != unclosed_want[i]:
+                w = ("ranges %r, expected %r: a procedure that lost its closing brace ends on the line of its last remaining token, "
+                     "the other procedures keep their extents" % (rs, unclosed_want[i]))
             if w:
                 wf_fail.append((i, w))
         if mmod is not None:
@@ -241,7 +275,7 @@ def run(ctx):
             continue
         violations += 1
         ctx.violation(dict(kind="oracle", property="C17", text=mtexts[i], observed=mres[i],
-                           what="folding ranges are not well-formed: " + err))
+                           what="folding ranges are not well-formed / not the procedures' extents: " + err))
 
     # ---- kernel judge on short documents
     nk, kfail, cases_k = 0, [], []
